@@ -163,6 +163,10 @@ class CSSVariablesDeclaration(cssutils.util._NewBase):
                     nameitem = item
                 elif 'value' == item.type:
                     nname = normalize(nameitem.value)
+                    if not item.value.wellformed:
+                        # (already reported) no variable: stored as '' it
+                        # would be written as text that cannot be parsed
+                        continue
                     if nname in newvars:
                         # replace var with same name
                         for i, it in enumerate(newseq):
